@@ -83,12 +83,14 @@ example : parseF64 "1e999".toList = .error .overflow ∧ parseF64 " -nan ".toLis
 
 /-- An accepted `[HitObjects]` line pushes an object whose start time is finite with
 `|t| ≤ MAX_PARSE_VALUE`; a slider has at most 8999 repeats, exactly `repeats + 2` node sounds and a
-pixel length of magnitude at most `MAX_COORDINATE_VALUE`. -/
+pixel length of magnitude at most `MAX_COORDINATE_VALUE` and at least one control point; the
+position (after `as i32 as f32`) is integral with both coordinates in `[-131072, 131072]`. -/
 theorem accepted_hit_object_fields (st : HState) (line : Str)
     (h : (parseHitObject st line).2 = .ok ()) :
     ∃ o s, (parseHitObject st line).1.objects = st.objects ++ [o] ∧
       (parseHitObject st line).1.sounds = st.sounds ++ [s] ∧
-      F64.mag o.time ≤ maxParse64 ∧ F64.isFinite o.time = true ∧ KindOK o.kind :=
+      F64.mag o.time ≤ maxParse64 ∧ F64.isFinite o.time = true ∧ KindOK o.kind ∧
+      (-131072 ≤ o.x ∧ o.x ≤ 131072) ∧ (-131072 ≤ o.y ∧ o.y ≤ 131072) :=
   parseHitObject_ok_fields st line h
 
 /-- An accepted `[TimingPoints]` line: finite time with `|t| ≤ MAX_PARSE_VALUE`; slider velocity in
